@@ -141,7 +141,7 @@ def _parse_retry_after(value: str) -> int | None:
     """
     try:
         return int(float(value))
-    except ValueError:
+    except (ValueError, OverflowError):  # incl. "inf"
         pass
     try:
         when = email.utils.parsedate_to_datetime(value)
